@@ -35,7 +35,7 @@ def val_universe(rng, units=(40, 48, 64, 80), text=True, pick=True):
 
 DEFAULT_WEIGHTS = dict(set=14, add=6, touch=4, incr=6, get=14, contains=4, pop=4, delete=5,
                        clear=0.3, evict=1, expire=1.5, push=4, pull=4, peek=2, peekitem=2,
-                       len=1, iter=1.5, stats=1, cull=1, tick=8)
+                       len=1, iter=1.5, stats=1, cull=1, tick=8, tagindex=0.6, volume=0.8)
 
 
 def random_history(rng, n, keys, vals, weights=None, ttls=((), (), (), (0,), (1,), (2,), (5,), (-1,), (1000,)),
@@ -84,6 +84,8 @@ def random_history(rng, n, keys, vals, weights=None, ttls=((), (), (), (0,), (1,
             a = {'en': rng.randrange(2), 'rs': 1 if rng.random() < 0.2 else 0}
         elif op == 'tick':
             a = {'n': rng.choice([1, 1, 1, 2, 3])}
+        elif op == 'tagindex':
+            a = {'on': rng.randrange(2)}
         else:
             a = {}
         ops.append({'op': op, 'a': a, 'form': form})
